@@ -31,8 +31,45 @@ C08.selectDefault_spec C08.priorityEncoder_inc_spec C08.priorityEncoder_dec_spec
 C08.swap_spec
 C08.equal_spec C08.equalConstant_spec C08.equalConstant_wrap C08.notEqualConstant_spec C08.anyEqual_spec C08.comparator_spec
 C08.comparatorSU_spec C08.max2_spec C08.min2_spec C08.signedMax2_spec C08.signedMin2_spec
-C08.xor2_wide_counterexample C08.equalConstant_out_of_range_counterexample C08.priorityEncoder_docstring_counterexample
+C08.xor2_val C08.xor2_wide_fixed C08.equalConstant_out_of_range_counterexample C08.priorityEncoder_docstring_counterexample
 """
+
+
+# proposals for /verif/known_findings.json (the integrator merges them); consulted locally in addition to that file.
+# status "fixed" (with the repairing /repo commit) suppresses nothing: a reappearance of that failure is a VIOLATION,
+# also while known_findings.json should still list the entry as "known".
+PROPOSED_FINDINGS = [
+    {"id": "C08-xor2-wide", "property": "C08", "status": "fixed", "fixed_by": "4cfd4ac", "anchor": "py4hw/logic/bitwise.py:759",
+     "class_expr": "(r.get('block_kind') == 'Xor2' and r['lean_params'][2] > r['lean_params'][0]) or "
+                   "(r.get('block_kind') == 'Xor' and r['lean_params'][0] > r['lean_params'][1])",
+     "witness": {"block": "Xor2", "aw": 8, "bw": 10, "rw": 9, "a": 122, "b": 1, "r_before_fix": 379, "r": 123},
+     "what": "Xor2 (and Xor) with a result wire wider than operand a: the internal NAND wires had the width of a, so the upper "
+             "result bits read 1 instead of a ^ b"},
+    {"id": "C08-priorityencoder-docstring", "property": "C08", "status": "fixed", "fixed_by": "26c0ec8",
+     "anchor": "py4hw/logic/bitwise.py:1439", "class_expr": "r.get('block_kind') == 'PriorityEncoder-docstring'",
+     "witness": {"a": [1, 1], "inc_priority": True, "r": [0, 1]},
+     "what": "PriorityEncoder docstring stated the opposite priority direction of code, inline comment and test suite"},
+    {"id": "C08-equalconstant-out-of-range", "property": "C08", "status": "known", "anchor": "py4hw/logic/relational.py:109",
+     "class_expr": "r.get('block_kind') == 'EqualConstant' and r.get('constant_out_of_range') is True",
+     "witness": {"block": "EqualConstant", "width": 1, "v": 2, "a": 1, "r": 1},
+     "what": "EqualConstant with a constant outside [0, 2^width) is active for some input (v mod 2^w; width 1: any nonzero v acts as 1)"},
+]
+
+
+def fail(res, what, replay):
+    """res.fail with PROPOSED_FINDINGS consulted first: a failure inside the class of a FIXED finding is a regression and
+    always a violation; a `known` proposal not yet listed in known_findings.json is reported as known finding"""
+    import common
+    listed = {k.get('id') for k in load_known()}
+    for k in PROPOSED_FINDINGS:
+        if k['status'] == 'fixed' and common._matches(k, what, replay):
+            res.failures.append({'what': what + f"  [regression of {k['id']}, fixed by /repo commit {k['fixed_by']}]", 'replay': replay})
+            return
+    for k in PROPOSED_FINDINGS:
+        if k['status'] == 'known' and k['id'] not in listed and common._matches(k, what, replay):
+            res.known_hits.append((k, what))
+            return
+    res.fail(what, replay)
 
 
 def M(w):
@@ -85,13 +122,13 @@ SPEC = {
     'Buf': (lambda P, X: True, lambda P, X: [X[0] & M(P[0])]),
     'And': (lambda P, X: True, lambda P, X: [_bitfn(P[0], lambda i: all(tb(x, i) for x in X))]),
     'Or': (lambda P, X: True, lambda P, X: [_bitfn(P[0], lambda i: any(tb(x, i) for x in X))]),
-    'Xor': (lambda P, X: P[0] <= P[1] and all(x <= M(w) for w, x in zip(P[1:], X)),
+    'Xor': (lambda P, X: all(x <= M(w) for w, x in zip(P[1:], X)),          # every width mix (since /repo 4cfd4ac)
             lambda P, X: [_bitfn(P[0], lambda i: sum(tb(x, i) for x in X) % 2 == 1)]),
     'Nor': (lambda P, X: P[0] <= P[1] or all(x <= M(P[1]) for x in X),
             lambda P, X: [_bitfn(P[0], lambda i: not any(tb(x, i) for x in X))]),
     'Nand2': (lambda P, X: P[1] <= P[0] or X[0] <= M(P[0]), lambda P, X: [~(X[0] & X[1]) & M(P[1])]),
     'Nor2': (lambda P, X: P[1] <= P[0] or all(x <= M(P[0]) for x in X), lambda P, X: [~(X[0] | X[1]) & M(P[1])]),
-    'Xor2': (lambda P, X: P[2] <= P[0] and X[1] <= M(P[1]), lambda P, X: [(X[0] ^ X[1]) & M(P[2])]),
+    'Xor2': (lambda P, X: X[0] <= M(P[0]) and X[1] <= M(P[1]), lambda P, X: [(X[0] ^ X[1]) & M(P[2])]),   # every width mix
     'Bit': (lambda P, X: P[0] >= 1, lambda P, X: [tb(X[0], P[1])]),
     'Range': (lambda P, X: True, lambda P, X: [_bitfn(P[0], lambda i: i <= P[1] - P[2] and tb(X[0], P[2] + i))]),
     'BitsLSBF': (lambda P, X: True, lambda P, X: [tb(X[0], i) for i in range(P[0])]),
@@ -597,7 +634,7 @@ class Batch:
                     res.hist('out_of_range_constant', 'literal behaviour (fixed?)')
                     continue
                 if exp != out:
-                    res.fail(f'{case.real} output differs from its truth table',
+                    fail(res, f'{case.real} output differs from its truth table',
                              dict(case.summary(), inputs=X, expected=exp, observed=out, block_kind=case.kind))
                     break
             res.hist('in_domain_vectors', case.kind, indom)
@@ -659,9 +696,8 @@ T1_CLASSES = ['And2', 'Or2', 'Not', 'Buf', 'Bit', 'BitsLSBF', 'BitsMSBF', 'Const
 
 
 def known_witnesses(res):
-    """re-derive the witnesses of the proposed known findings on the real code (notes/C08.md).  They are reported through
-    res.fail only when the finding is listed in known_findings.json (then: KNOWN-FINDING line); otherwise noted."""
-    listed = {k['id'] for k in load_known() if k.get('property') == 'C08'}
+    """re-derive the witnesses of the findings on the real code at every run (notes/C08.md) and report them through fail():
+    a `known` finding prints KNOWN-FINDING, a recurrence of a `fixed` one is a VIOLATION; nothing is reported once repaired."""
     import py4hw
     # C08-equalconstant-out-of-range: EqualConstant(a: 1 bit, v=2) is active for a == 1 although 1 != 2
     for (aw, v, a) in ((1, 2, 1), (2, 5, 1)):
@@ -670,10 +706,7 @@ def known_witnesses(res):
         if R and R[0] != 'E' and R[0] != [int(a == v)]:
             rep = dict(c.summary(), inputs=[a], constant=v, expected=[int(a == v)], observed=R[0], block_kind='EqualConstant',
                        constant_out_of_range=True)
-            if 'C08-equalconstant-out-of-range' in listed:
-                res.fail('EqualConstant with a constant outside [0, 2^width) is active for some input', rep)
-            else:
-                res.notes.append({'candidate_finding': 'C08-equalconstant-out-of-range', 'witness': rep})
+            fail(res, 'EqualConstant with a constant outside [0, 2^width) is active for some input', rep)
     # C08-priorityencoder-docstring: documentation finding, checked by reading the docstring
     doc = py4hw.PriorityEncoder.__init__.__doc__ or ''
     c = mk('PriorityEncoder', ws=[1, 1], rw=1, inc=True)
@@ -681,10 +714,7 @@ def known_witnesses(res):
     if 'If True, the lowest index has the highest priority' in doc and R and R[0] == [0, 1]:
         rep = dict(c.summary(), inputs=[1, 1], observed=R[0], docstring='inc_priority=True: lowest index has the highest priority',
                    block_kind='PriorityEncoder-docstring')
-        if 'C08-priorityencoder-docstring' in listed:
-            res.fail('PriorityEncoder docstring states the opposite priority direction of code, comment and test', rep)
-        else:
-            res.notes.append({'candidate_finding': 'C08-priorityencoder-docstring', 'witness': rep})
+        fail(res, 'PriorityEncoder docstring states the opposite priority direction of code, comment and test', rep)
 
 
 def main(res, tier, rng, replay):
@@ -718,6 +748,14 @@ def main(res, tier, rng, replay):
             b.add(case, 'all', all_vectors(case.inw))
         else:
             b.add(case, 'x', sample_vectors(case, r.fork(('sv', ci)), 200 if tier == 'quick' else 2000))
+    # permanent regression cases of repaired defects (explicit former witnesses; a recurrence is a VIOLATION, see fail())
+    for rc, vecs in ((mk('Xor2', aw=8, bw=10, rw=9), [[122, 1], [255, 1023], [0, 0], [122, 513], [1, 256]]),
+                     (mk('Xor2', aw=2, bw=2, rw=4), [[1, 3], [0, 0], [3, 3], [2, 1]]),
+                     (mk('Xor', rw=9, ws=[8, 10, 3]), [[122, 1, 0], [255, 1023, 7], [0, 0, 0], [1, 512, 4]]),
+                     (mk('Xor', rw=4, ws=[2, 2]), [[1, 3], [0, 0], [3, 3]]),
+                     (mk('Equal', aw=3, bw=5, rw=1), [[5, 5], [5, 4], [0, 0], [7, 7]]),
+                     (mk('AnyEqual', rw=1, ws=[4, 4, 4]), [[9, 3, 9], [1, 2, 3], [0, 0, 0]])):
+        b.add(rc, 'x', vecs)
     n_rand = 320 if tier == "quick" else 3000
     n_vec = 40 if tier == 'quick' else 120
     for i in range(n_rand):
